@@ -16,6 +16,9 @@ partial def loop (h : IO.FS.Stream) : IO Unit := do
   | ["errreset", o, y] =>
     let s := runReset resetSteps spaDisconnectSteps facadeDisconnectSteps (if o == "self" then .spaTask else .user) (y == "1")
     IO.println s!"{showL s.ledger} completed={b s.completed}"
+  | ["discoverexit", y] =>
+    let s := runDiscoverFinally discoverFinallySteps (y == "1")
+    IO.println s!"closed={b s.closed} locCancelled={b s.locCancelled}"
   | ["cycles", n] => IO.println s!"{openAfterCycles teardownFacts (n.toNat?.getD 0)}"
   | ["count"] => IO.println s!"{crashPoints.length}"
   | _ => IO.println "bad-op"
